@@ -497,4 +497,69 @@ func ZZ_C12_step_RaiseMinimumStake() {
 	zzReach("C12.minstake.done")
 }
 
+// Governance lowers MaxCommittees (ConformStateToParamUpdate): every validator / delegate listing
+// more committees than the new maximum is trimmed immediately, in a pseudorandom rotation; the
+// per-committee tallies and membership indexes must follow (UpdateCommittees / UpdateDelegations),
+// nobody's stake or status moves, and the markers are untouched.
+//
+//zz:harness mode=int unwind=80 maxpaths=100000 timebudget=1800 param.committeeshapes=2 param.minprotocol@quick=2 param.minprotocol@thorough=1
+//zz:reach C12.maxcommittees.done C12.maxcommittees.trimmed
+func ZZ_C12_step_LowerMaxCommittees() {
+	sm, _ := zzFSM(5)
+	zzProtocol(sm, zzConcrete(zzInt("protocol"), zzParam("minprotocol", 1), 2))
+	n := zzParam("vals", 2)
+	vals := zzStakingWorld(sm, n)
+	prev, err := sm.GetParams()
+	if err != nil {
+		panic("params")
+	}
+	cur, _ := sm.GetParamsVal()
+	newMax := zzConcrete(zzInt("newMaxCommittees"), 0, 2)
+	cur.MaxCommittees = uint64(newMax)
+	if sm.SetParamsVal(cur) != nil {
+		panic("set params")
+	}
+	sm.ResetCaches()
+	zzAssert("C12.maxcommittees.returns-nil", sm.ConformStateToParamUpdate(prev) == nil)
+	for i := 0; i < n; i++ {
+		v, e := sm.GetValidator(crypto.NewAddress(zzAddr(i)))
+		zzAssert("C12.maxcommittees.nobody-removed", e == nil)
+		if e != nil {
+			continue
+		}
+		zzAssert("C12.maxcommittees.within-the-new-maximum", len(v.Committees) <= newMax)
+		if len(v.Committees) != len(vals[i].Committees) {
+			zzReach("C12.maxcommittees.trimmed")
+		} else {
+			for j := range v.Committees {
+				zzAssert("C12.maxcommittees.untrimmed-list-unchanged", v.Committees[j] == vals[i].Committees[j])
+			}
+		}
+		for _, c := range v.Committees {
+			was := false
+			for _, o := range vals[i].Committees {
+				was = was || o == c
+			}
+			zzAssert("C12.maxcommittees.kept-committees-were-listed-before", was)
+		}
+		zzAssert("C12.maxcommittees.stake-and-status-untouched", v.StakedAmount == vals[i].StakedAmount && v.UnstakingHeight == vals[i].UnstakingHeight && v.MaxPausedHeight == vals[i].MaxPausedHeight && v.Delegate == vals[i].Delegate)
+		// membership indexes follow the record
+		for _, c := range []uint64{1, 2} {
+			listed := false
+			for _, id := range v.Committees {
+				listed = listed || id == c
+			}
+			addr := crypto.NewAddress(zzAddr(i))
+			inC := zzHasKey(sm, KeyForCommittee(c, addr, v.StakedAmount))
+			inD := zzHasKey(sm, KeyForDelegate(c, addr, v.StakedAmount))
+			active := v.UnstakingHeight == 0 && v.MaxPausedHeight == 0
+			_ = active
+			zzAssert("C12.maxcommittees.no-index-entry-for-a-dropped-committee", listed || (!inC && !inD))
+		}
+	}
+	zzInv12(sm, "C12.maxcommittees", n)
+	zzNoWedge(sm, "C12.maxcommittees")
+	zzReach("C12.maxcommittees.done")
+}
+
 var _ = lib.JoinLenPrefix
